@@ -8,7 +8,7 @@ R.func('Fut.id', ['Fut'], 'Fid')
 R.axiom("forall('Fut','Fut', lambda f, g: implies(f.id == g.id, f == g))", name='A-ids')
 
 R.record('Fut', cls=FU,
-    mutable={'_state': 'FState', '_ex': 'Opt[Exc]', '_result': 'Opt[Val]'},
+    mutable={'_state': 'FState', '_ex': 'Opt[Exc]', '_result': 'Opt[Res]'},
     immutable={'id': 'Fid'},
     pure={'done': '(self._state == FState.FINISHED) or (self._state == FState.CANCELLED)',
           'cancelled': 'self._state == FState.CANCELLED'},
@@ -19,7 +19,7 @@ R.contract(f'{FU}.done', self_type='Fut', returns='Bool', pure=True,
     ensures=["result == ((self._state == FState.FINISHED) or (self._state == FState.CANCELLED))"], serves=('C11', 'C14', 'C10'))
 R.contract(f'{FU}.cancelled', self_type='Fut', returns='Bool', pure=True,
     ensures=["result == (self._state == FState.CANCELLED)"], serves=('C11', 'C14'))
-R.contract(f'{FU}.set_result', self_type='Fut', params={'result': 'Val'},
+R.contract(f'{FU}.set_result', self_type='Fut', params={'result': 'Res'},
     ensures=["forall('Fut', lambda f: f._state == (FState.FINISHED if f == self else old(f._state)))",
              "forall('Fut', lambda f: implies(f != self, (f._result == old(f._result)) and (f._ex == old(f._ex))))",
              "(not isnone(self._result)) and (unopt(self._result) == result) and isnone(self._ex) == isnone(old(self._ex))"],
@@ -34,7 +34,7 @@ R.contract(f'{FU}.set_exception', self_type='Fut', params={'ex': 'Exc'},
 R.contract(f'{FU}.cancel', self_type='Fut', params={},
     ensures=["forall('Fut', lambda f: f._state == (FState.CANCELLED if f == self else old(f._state)))"],
     frame=['Fut._state'])
-R.contract(f'{FU}.result', self_type='Fut', params={}, returns='Val',
+R.contract(f'{FU}.result', self_type='Fut', params={}, returns='Res',
     ensures=["old(self._state) == FState.FINISHED", "isnone(self._ex)", "result == unopt(self._result)"],
     raises={'FutureStateError': ["self._state != FState.FINISHED"],
             'BaseException': ["self._state == FState.FINISHED", "not isnone(self._ex)", "exc == unopt(self._ex)"]},
@@ -96,10 +96,10 @@ R.contract('trusted:Queue.get', trusted=True, self_type='Queue', params={'block'
 R.alias('Queue', 'get', 'trusted:Queue.get')
 R.func('roe_is_exc', ['ResOrEx'], 'Bool')
 R.func('roe_exc', ['ResOrEx'], 'Exc')
-R.func('roe_val', ['ResOrEx'], 'Val')
+R.func('roe_val', ['ResOrEx'], 'Res')
 R.isinstance_tests[('ResOrEx', 'BaseException')] = 'roe_is_exc(x)'
 R.func('ResOrEx_to_Exc', ['ResOrEx'], 'Exc')
-R.func('ResOrEx_to_Val', ['ResOrEx'], 'Val')
+R.func('ResOrEx_to_Res', ['ResOrEx'], 'Res')
 R.const_names = {'_subprocess_target': 'TargetFn'}
 
 R.contract(f'{PE}._start_processes',
